@@ -141,17 +141,30 @@ def make_case(ctx: Ctx, backend: str, i: int) -> diff.Case:
             cols.append(f"{name}({', '.join(reversed(a))})" if npar > 1 else f"({name}({a[0]}) * 2)")
     if R.random() < 0.2:
         cols.append("DeltaR(j.eta(), j.phi(), 0.5, 0.25)")
+    second = None
+    if not method and R.random() < 0.5:
+        # a second, different function in the same query; the first one must still mean itself
+        second = gen_spec(R, 1000 + i, backend, False)
+        pf2 = py_function(second)
+        a2 = ", ".join(arg_expr(R, "j", 1, None, 0) for _ in second["params"])
+        cols.append(f"{second['md']['name']}({a2})")
+        cols.append(cols[0])
     src = f"ds.SelectMany(lambda e: e.{C}('A'))"
     if scope_moving:
         src += ".Where(lambda j: j.tracks().Count() > 0 and j.trkPts().Count() > 0)"
     q = f"{src}.Select(lambda j: ({', '.join(cols)}{',' if len(cols) == 1 else ''}))"
     extra: Dict[str, Any] = {}
+    if second:
+        extra[second["md"]["name"]] = lambda *a: pf2(*a)
     if method:
         # reference: method on the model object; bind through a global helper used by a rewritten query text for the reference only
         extra[name] = lambda *a: pf(*a)
     else:
         extra[name] = lambda *a: pf(*a)
-    c = diff.Case(backend, q, evgen.gen_events(s, ctx.rng("ev", backend, i), 4), diff.members_used(s, q) + [spec["md"]], tag={"spec": spec, "method": method}, extra_globals=extra)
+    mds = [spec["md"]] + ([second["md"]] if second else [])
+    if second and R.random() < 0.5:
+        mds.reverse()
+    c = diff.Case(backend, q, evgen.gen_events(s, ctx.rng("ev", backend, i), 4), diff.members_used(s, q) + mds, tag={"spec": spec, "method": method, "two_functions": bool(second)}, extra_globals=extra)
     if method:
         c.ref_query = re.sub(rf"j\.{name}\(", f"{name}__m(j, ", q)  # type: ignore
         c.extra_globals = {f"{name}__m": (lambda o, *a: pf(*a, _self_pt=o.pt()))}
@@ -252,6 +265,19 @@ def run(ctx: Ctx) -> int:
             builtins += ["ds.SelectMany(lambda e: e.Jets('A')).Select(lambda j: (j.getAttributeFloat('emf'), j.getAttributeVectorFloat('vals').Count(), j.getAttributeVectorFloat('vals').Select(lambda v: v * 2)))"]
         else:
             builtins += [f"ds.SelectMany(lambda e: e.{C}('A')).Select(lambda j: (isNonnull(j.globalTrack()), j.globalTrack().pt() if isNonnull(j.globalTrack()) else -1.0))"]
+        # a function returning a COLLECTION: of object pointers (ATLAS) / objects (CMS), and of numbers
+        sub = s["main"]["subcls"]
+        coll_fns = [{"metadata_type": "add_cpp_function", "name": "GoodTracks", "include_files": ["vector"], "arguments": ["jet"], "code": [f"auto result = jet{'->' if backend == 'atlas' else '.'}tracks();"],
+                     "return_type": ("const " + sub + "*") if backend == "atlas" else sub, "return_is_collection": True},
+                    {"metadata_type": "add_cpp_function", "name": "Doubled", "include_files": ["vector"], "arguments": ["jet", "f"],
+                     "code": ["std::vector<double> result;", f"for (auto v : jet{'->' if backend == 'atlas' else '.'}trkPts()) result.push_back(v * f);"], "return_type": "double", "return_is_collection": True}]
+        cg = {"GoodTracks": lambda j: j.tracks(), "Doubled": lambda j, f: j.trkPts().Select(lambda v: v * f)}
+        for q in (f"ds.Select(lambda e: e.{C}('A').Select(lambda j: GoodTracks(j).Select(lambda t: t.pt())))",
+                  f"ds.Select(lambda e: e.{C}('A').Select(lambda j: GoodTracks(j).Where(lambda t: t.pt() > 5.0).Count()))",
+                  f"ds.SelectMany(lambda e: e.{C}('A')).Select(lambda j: (GoodTracks(j).Count(), Doubled(j, 2.0).Sum(), j.pt()))",
+                  f"ds.Select(lambda e: e.{C}('A').Select(lambda j: Doubled(j, 0.5).Select(lambda v: v + 1.0)))",
+                  f"ds.Select(lambda e: e.{C}('A').Where(lambda j: GoodTracks(j).Count() > 0).Select(lambda j: GoodTracks(j).First().eta()))"):
+            cases.append(diff.Case(backend, q, evs, diff.members_used(s, q) + coll_fns, tag={"builtin": True, "method": False, "collection_function": True}, extra_globals=cg))
         for q in builtins:
             if "getAttributeVectorFloat('vals').Select" in q and any(f["key"] == "object_rows_with_sequence_column" for f in ctx.all_known()):
                 q = q.replace(", j.getAttributeVectorFloat('vals').Select(lambda v: v * 2)", "")
